@@ -460,7 +460,8 @@ Verdict propSynthesis(Ctx& c) {
   if (pbt::known(kKnownCyclic) && cyclicIdentificationClass(pairs, b1, 0, b2, 1, true)) return pbt::excluded(kKnownCyclic);
   if (hasBaseToDerivedPair(pairs, true)) {  // termination guard: a table that replaces base sets by derived constituents is probed in a child first
     const auto probe = pbt::inChild([&] { BinarySynthes trial(s1, *s2, opts); return pbt::pass(); }, 4);
-    if (probe.status == pbt::ChildResult::TIMEOUT) return pbt::fail("admissibility-check-hangs", "the BinarySynthes constructor (IsEquatable) did not return within 4 s");
+    if (probe.status == pbt::ChildResult::STARVED) return pbt::discard("termination probe starved of CPU");
+    if (probe.status == pbt::ChildResult::TIMEOUT) return pbt::fail("admissibility-check-hangs", "the BinarySynthes constructor (IsEquatable) did not return within 4 s of CPU time");
     c.count("checked:termination-probe");
   }
 
@@ -585,7 +586,8 @@ Verdict equateRound(Ctx& c, RSForm& s, const std::vector<REq>& table) {
   if (pbt::known(kKnownCyclic) && cyclicIdentificationClass(pairs, before, 0, before, 0, false)) return pbt::excluded(kKnownCyclic);
   if (hasBaseToDerivedPair(pairs, false)) {
     const auto probe = pbt::inChild([&] { (void)s.Ops().IsEquatable(opts); return pbt::pass(); }, 4);
-    if (probe.status == pbt::ChildResult::TIMEOUT) return pbt::fail("admissibility-check-hangs", "IsEquatable did not return within 4 s");
+    if (probe.status == pbt::ChildResult::STARVED) return pbt::discard("termination probe starved of CPU");
+    if (probe.status == pbt::ChildResult::TIMEOUT) return pbt::fail("admissibility-check-hangs", "IsEquatable did not return within 4 s of CPU time");
     c.count("checked:termination-probe");
   }
 
